@@ -546,7 +546,10 @@ impl WorldGenerator for MoonBit {
             uwriteln!(&mut body, "{}", builtin);
         }
         // Import all exported interfaces
-        for (_, (_, impl_)) in self.export.iter() {
+        // ... in a stable order: `self.export` is a hash map.
+        let mut exports = self.export.iter().collect::<Vec<_>>();
+        exports.sort_unstable_by_key(|(name, _)| name.as_str());
+        for (_, (_, impl_)) in exports {
             uwriteln!(&mut body, "{impl_}");
         }
 
